@@ -26,7 +26,7 @@ SYMS = {'eq': '==', 'ne': '/=', 'lt': '<', 'le': '<=', 'gt': '>', 'ge': '>='}
 CLASSES = ['ops-span-heuristic', 'ops-lookalike-in-literal',
            'ops-unparsed-statement', 'ops-mixed-spelling-in-node', 'ops-same-op-on-several-lines',
            'fix-header-continuation-lost', 'fix-comment-displaced', 'fix-nested-report-skipped',
-           'fix-literal-requoted', 'fix-enclosing-while-regenerated', 'ubound-fix-reformats-statements',
+           'fix-literal-requoted', 'fix-while-loop-regenerated', 'ubound-fix-reformats-statements',
            'ubound-removes-other-code', 'ubound-not-an-ubound-check']
 # repaired by fix: commits (status "fixed" in known_findings.json; a recurrence is a VIOLATION): ops-fix-raises,
 # ops-nonlower-spelling; by e7bf38f (C03, inline-IF action statement source): ubound-inline-if-duplicated
@@ -238,15 +238,8 @@ def is_inline_if(l):
 
 
 def enclosing_do(lines, rr):
-    in_r = lambda i: any(a <= i <= b for a, b in rr)
-    for i, l in enumerate(lines, 1):
-        if line_kw('do', l) and not in_r(i):
-            e = i + 1
-            while e <= len(lines) and ''.join(line_code(lines[e - 1]).split()) != 'enddo':
-                e += 1
-            if any(i < a and b < e for a, b in rr):
-                return True
-    return False
+    """mirror of KnownEnclosingDo: an unreported line starting with DO"""
+    return any(line_kw('do', l) and not any(a <= i <= b for a, b in rr) for i, l in enumerate(lines, 1))
 
 
 def fix_known_flags(src, nodes, reports):
@@ -263,7 +256,7 @@ def fix_known_flags(src, nodes, reports):
 
 
 FIX_CLASSES = ['fix-header-continuation-lost', 'fix-comment-displaced', 'fix-nested-report-skipped',
-               'fix-literal-requoted', 'fix-enclosing-while-regenerated']
+               'fix-literal-requoted', 'fix-while-loop-regenerated']
 
 
 def known_flags(src, nodes):
@@ -792,14 +785,16 @@ class C43(Prop):
         if sorted(left) != sorted(expect_left):
             fails.append(Failure(f'F77 operators in code after the fix: {left!r}, expected only those outside reported statements '
                                  f'{expect_left!r}', fcls))
-        if sorted(lit_values(fixed)) != sorted(lit_values(src)):
-            fails.append(Failure(f'character literals changed by the fix: {sorted(set(lit_values(src)) ^ set(lit_values(fixed)))!r}', fcls))
+        core = lambda t: '\n'.join(l for l in t.split('\n') if not is_frame_line(l))   # regenerated text statements: own class
+        if sorted(lit_values(core(fixed))) != sorted(lit_values(core(src))):
+            fails.append(Failure('character literals changed by the fix: '
+                                 f'{sorted(set(lit_values(core(src))) ^ set(lit_values(core(fixed))))!r}', fcls))
         if sorted(comments(fixed)) != sorted(comments(src)):
             fails.append(Failure(f'comments changed by the fix: {sorted(set(comments(src)) ^ set(comments(fixed)))!r}', fcls))
         elif sorted(standalone_comments(fixed)) != sorted(standalone_comments(src)):
             fails.append(Failure('a trailing comment is moved to a line of its own by the fix: '
                                  f'{sorted(set(standalone_comments(fixed)) - set(standalone_comments(src)))!r}', fcls))
-        if sem_tokens(fixed) != sem_tokens(src):
+        if sem_tokens(core(fixed)) != sem_tokens(core(src)):
             fails.append(Failure('code tokens (relational operators in either spelling, blanks and case ignored) changed by the fix', fcls))
         # statements that carry no report are byte-identical, in order
         keep = [l for i, l in enumerate(src.split('\n'), 1) if not any(a <= i <= b for a, b in rr)]
